@@ -108,6 +108,13 @@ theorem MSafe_throw_bind {Q : β → Prop} {e : Err} {f : α → M β} (h : bad 
 
 theorem MSafe.of_run {P : α → Prop} {m : M α} (h : ∀ s, ESafe P (m s).2) : MSafe P m := h
 
+theorem ESafe.ne_panic {P : α → Prop} {r : Except Err α} (h : ESafe P r) (w : String) :
+    r ≠ .error (.panic w) := by
+  intro he; rw [he] at h; exact absurd h (by simp)
+
+theorem ESafe.ne_fuel {P : α → Prop} {r : Except Err α} (h : ESafe P r) : r ≠ .error .fuel := by
+  intro he; rw [he] at h; exact absurd h (by simp)
+
 /-! ## sink primitives never fail badly -/
 
 theorem write1_safe (s : Sink) (bs : Bytes) : ESafe (fun _ => True) (s.write1 bs).2 := by
